@@ -148,6 +148,18 @@ def run_case(case):
                             x.explain(); str(x)
             inputs_same("reads, str() and explain() of every value")
         if not V:
+            # results read in other units (the public in-place .to()), then the system alone recomputed: same physical values
+            for o in objs_list:
+                for a in ("instances_fabrication_footprint", "energy_footprint", "instances_energy"):
+                    v = o.__dict__.get(a)
+                    if isinstance(v, E.ExplainableHourlyQuantities):
+                        try:
+                            v.to(E.u.tonne if "footprint" in a else E.u.Wh); C["results_read_in_other_units"] = C.get("results_read_in_other_units", 0) + 1
+                        except Exception:
+                            pass
+            sysm.compute_calculated_attributes()
+            same("system.compute_calculated_attributes() after results were read in other units")
+        if not V:
             for mode in (False, True):
                 E.system_to_json(sysm, save_calculated_attributes=mode); C["exports"] += 1
                 if not inputs_same(f"system_to_json(save_calculated_attributes={mode})"):
